@@ -45,15 +45,16 @@ MANIFEST = {
              "under fairness of every select arm (design level: wait-for cycles are counterexamples) and (b) exports "
              "the state graph; every model state in which Stop is called becomes a scenario (peer pool {empty, silent, "
              "responsive} x <=2 activities in flight x moment, plus activities begun after Stop) that is run against a "
-             "REAL ChainService on a temp data dir with in-process simulated peers, one child process per scenario. "
+             "REAL ChainService on a temp data dir with in-process simulated peers, one child process per scenario; a "
+             "verif-tag hook lets the driver hold the real Stop after a chosen step while the client keeps running. "
              "TLC evaluates StopReturns / CallersReleased / CallerErrorClass / ReopenConsistent of ShutdownProps.tla on "
              "the recorded events; every recorded trace is also checked to be a behaviour of the model (drift).",
-        note="Bound for 'bounded time': 90 s (normal Stop: 0.05-5 s). Peers are the netsim mock nodes; a dial is assumed "
+        note="Quick: all single activities x 3 pools (+ begun after Stop, + dial in progress), two seed-chosen pairs and "
+             "(subscribe, mid-sync); thorough: all pairs. Bound for 'bounded time': 90 s (normal Stop: 0.05-3 s). Peers are the netsim mock nodes; a dial is assumed "
              "to return in bounded time. Reopen checks stores open, tips readable, filter tip <= block tip, last 50 "
              "headers linked, NewChainService succeeds; chain validity proper is C01/C03. The interleaving of "
              "goroutines inside the real Stop is whatever the Go scheduler does (moments: immediately / parked / "
-             "seeded delay), the model side is exhaustive. MarkAsConfirmed-after-Stop (rescan blocked for ever) is in "
-             "the model (FixBR1) but cannot be scheduled on the real client without hooks.",
+             "seeded delay / held after a step), the model side is exhaustive.",
         design="4 C17", technique="TLA+ composite spec + TLC liveness under fairness + scenarios from model states "
                                  "replayed on a real ChainService + TLC-judged observed traces + trace inclusion in the exported graph"),
 }
@@ -504,7 +505,8 @@ class Conformance:
             T = self.step(S, a)
             if not T:
                 return dict(step=i + 1, what="observed event is not possible in the model here",
-                            act={k: a[k] for k in ("op", "k", "m", "cls")}, at=a.get("at"),
+                            act={k: a[k] for k in ("op", "k", "m", "cls")}, at=a.get("at"), err=s.get("err", ""),
+                            info=tr.get("info"),
                             model_at_sample=[g.at(n) for n in list(S)[:3]], model_states=len(S))
             S = T
         return None
